@@ -24,7 +24,7 @@ Proof. intros key n. unfold dense_oob. lia. Qed.
 (* the components python hands over for an attribute of arity e *)
 Definition comps_of (e : Z) (v : value) : option (list comp) :=
   if e >? 1 then seq_of v
-  else match v with VScal c => Some [c] | VStr s _ => Some [CS s] | VSeq _ => None end.
+  else match v with VScal c => Some [c] | VStr s => Some [CS s] | VSeq _ => None end.
 
 Definition comp_ok (t : ty) (c : comp) : Prop := exists tv, kind_of c = Some tv /\ widens tv t.
 
@@ -64,7 +64,7 @@ Proof.
            ++ intros H. inversion H; subst. repeat split; auto; [lia|]. now apply check_comps_None.
            ++ intros [H0 [H1 _]]. inversion H1; subst. reflexivity.
     + split; [discriminate|]. intros [_ [H _]]. discriminate.
-  - assert (e = 1) by lia. subst e. destruct v as [c|l0|s ch].
+  - assert (e = 1) by lia. subst e. destruct v as [c|l0|s].
     + destruct (kind_of c) as [tv|] eqn:K.
       * destruct (can_be_casted tv t) eqn:C.
         -- split.
